@@ -92,8 +92,54 @@ def symbol_values(o):
     return vals
 
 
+def gen_parity_program(rnd):
+    """Byte-sized content, parity directives and labels; the base (even or odd) is stated first, in the middle or after everything, and part
+    of the file may be an included file that starts at whatever parity the text before it ends on."""
+    from vlib import apm
+    stmts, labels = [], []
+    for i in range(rnd.randrange(4, 14)):
+        r = rnd.random()
+        if r < 0.3:
+            stmts.append(apm.data(".byte", *[apm.num(rnd.randrange(256)) for _ in range(rnd.randrange(1, 4))]))
+        elif r < 0.5:
+            stmts.append(apm.simple(rnd.choice([".even", ".odd"])))
+        elif r < 0.6:
+            stmts.append(apm.blk(".blkb", apm.num(rnd.randrange(0, 6))))
+        elif r < 0.7:
+            stmts.append(apm.string(".ascii", [("s", rnd.choice(["a", "ab", "abc", ""]))]))
+        elif r < 0.76:
+            stmts.append(apm.blk(".align", apm.num(rnd.choice([2, 4, 8, 3]))))
+        else:
+            labels.append(f"par{i}")
+            stmts.append(apm.label(labels[-1]))
+    aux = {}
+    if len(stmts) > 4 and rnd.random() < 0.4:
+        a = rnd.randrange(1, len(stmts) - 1)
+        b = rnd.randrange(a + 1, len(stmts) + 1)
+        moved = [apm.label(s.labels[0][0], extern=True) if (s.k == "nop" and s.labels) else s for s in stmts[a:b]]
+        aux["par7.mac"] = apm.SrcFile("par7.mac", moved)
+        stmts[a:b] = [apm.include("par7.mac")]
+    base = rnd.choice([0o1000, 0o1001, 0o2001, 0o40000, 0o40001, 1, 0])
+    stmts += [apm.simple(".even"), apm.data(".word", *[("sym", l) for l in labels], ("dot",))]
+    site = rnd.random()
+    if site < 0.35:
+        stmts.insert(0, apm.link(apm.num(base)))
+    elif site < 0.75:
+        stmts.append(apm.link(apm.num(base)))
+    elif site < 0.9:
+        stmts.insert(rnd.randrange(1, len(stmts)), apm.link(apm.num(base)))
+    prog = apm.Program([apm.SrcFile("f0.mac", stmts)], aux=aux)
+    try:
+        apm.Ref(prog).run()
+    except (apm.RefError, apm.Unmodelled):
+        return None
+    return prog
+
+
 def gen_case(rnd, tier):
     from vlib import apm, tight
+    if rnd.random() < 0.15:
+        return gen_parity_program(rnd)
     opts = {"include": rnd.random() < 0.4, "insert": rnd.random() < 0.4, "odd_base": rnd.random() < 0.1}
     prog, ref, info = tight.gen_program(rnd, opts=opts, charset=rnd.choice(["bk", "bk", "utf-8", "koi8-r", "cp866"]))
     # probe tables: '.word <every label of the file>, .' appended to each linked file
